@@ -284,7 +284,7 @@ static void run_case(const Case& c, Rng& rng) {
       describe_case(show(c) + (any ? " kf=repad" : "")); }
     Model m = c.start; std::unique_ptr<RadioTap> rt;
     Ctx x{&c, (size_t)-1, "", false};
-    if (c.start_kind == 1 && !c.inner.present && !m.fcs()) { cnt("harness-error:bare-parsed-start"); return; }
+    if (c.start_kind == 1 && !c.inner.present && !m.fcs()) { fail(x, "selfcheck/bare-parsed-start", "generator produced a parsed start with nothing behind the header"); return; }
     if (c.start_kind == 0) { rt.reset(new RadioTap()); attach_inner(*rt, c.inner); x.site = "after-default-ctor"; cnt("start:default-ctor"); }
     else {
         Bytes enc = encode_packet(m, c.inner); ExactBuf eb(enc);
